@@ -210,8 +210,16 @@ def _h_insert_file_lang(ex, st, recv, pos, kw, node):
 
 
 PLATOBJ.methods["process_include"] = _h_process_include
+def _h_get_realpath(ex, st, recv, pos, kw, node):
+    if len(pos) != 1 or kw:
+        return [(st, Exc("TypeError", node.lineno))]
+    F.install_axioms()
+    return [(st, VAtom(PATH, F.realpath(ops.coerce(st, ops.deref(st, pos[0]), PATH).t)))]
+
+
 STATEOBJ2 = Abstract("StateObj", attrs={"langs": TotalMapOf(PATH, LANGK)},
-                     methods={"insert_file": _h_insert_file_lang, "associate": C08._h_associate})
+                     methods={"insert_file": _h_insert_file_lang, "associate": C08._h_associate,
+                              "_get_realpath": _h_get_realpath})
 KWARGS = ObjSpec("$dict", {"platform": PLATOBJ, "filename": PATH, "state": STATEOBJ2})
 INCPATH = ObjSpec("IncludePath", {"path": PATH, "system": BOOL})
 _exp_path = z3.Function("include_path_of_expansion", EXPANSION.sort(), PATH.sort())
@@ -294,14 +302,14 @@ def _include_contract(key, value_kind):
         if mc == 1:
             out.append(("nothing-else-happens-only-when-not-found", z3.Not(found)))
         elif mc == 2:
-            out.append(("found: once-list consulted, header skipped",
-                        z3.And(found, ev(1) == T.mk(PROC, obj=plat, path=tgt, flag=z3.BoolVal(False)))))
+            out.append(("found: once-list consulted by the header's real path, header skipped",
+                        z3.And(found, ev(1) == T.mk(PROC, obj=plat, path=F.realpath(tgt), flag=z3.BoolVal(False)))))
         elif mc == 4:
             lang = R.st.ghost.get("inserted_lang")
             want_lang = z3.Select(STATEOBJ2.attr_fn("langs")(A.kwargs.state.t), filename)
             out.append(("found and not on the once-list: header parsed with the includer's language and associated "
                         "with the same platform object",
-                        z3.And(found, ev(1) == T.mk(PROC, obj=plat, path=tgt, flag=z3.BoolVal(True)),
+                        z3.And(found, ev(1) == T.mk(PROC, obj=plat, path=F.realpath(tgt), flag=z3.BoolVal(True)),
                                ev(2) == T.mk(INSERT, path=tgt), ev(3) == T.mk(ASSOC, path=tgt, obj=plat),
                                (lang.t == want_lang) if lang is not None else z3.BoolVal(False))))
         else:
